@@ -32,7 +32,7 @@ ALL_FEATURES = ["err", "rty", "stall", "lock", "cti", "bte"]
 
 
 def n_cases(tier):
-    return 240 if tier == "quick" else 3600
+    return 800 if tier == "quick" else 10000
 
 
 def gen_case(rng, tier, idx):
